@@ -242,6 +242,21 @@ Proof.
   rewrite del_attr_idem. reflexivity.
 Qed.
 
+(* a name that no frame carries NOW addresses nothing - whatever the frame was called before an earlier stage renamed it *)
+Lemma frame_named_absent : forall n l, ~ In n (map cf_name l) -> frame_named n l = None.
+Proof.
+  intros n l. induction l as [|x r IH]; intros H; [reflexivity|].
+  cbn [frame_named]. destruct (name_eqb (cf_name x) n) eqn:E.
+  - apply name_eqb_eq in E. exfalso. apply H. left. exact E.
+  - apply IH. intros Hin. apply H. right. exact Hin.
+Qed.
+Theorem fd_options_unknown_name_noop : forall n m,
+  no_char COMMA n -> ~ In n (map cf_name (cm_frames m)) -> set_frame_fd n m = m /\ unset_frame_fd n m = m.
+Proof.
+  intros n m Hc Hn. unfold set_frame_fd, unset_frame_fd, parse_list. rewrite split_on_no_sep by exact Hc.
+  cbn [fold_left]. unfold on_named. rewrite frame_named_absent by exact Hn. split; apply set_cframes_same.
+Qed.
+
 (* ---------- frameIdIncrement ---------- *)
 Theorem frame_id_increment_effect : forall n m,
   frame_id_increment (render_int n) m = Some (set_cframes m (map (fun f => with_id f (cf_id f + n)) (cm_frames m))).
